@@ -1472,10 +1472,16 @@ type FunctionNode struct {
 // MarshalJSON converts the node to JSON with an additional
 // typeOf field.
 func (n *FunctionNode) MarshalJSON() ([]byte, error) {
+	args := n.Args
+	if args == nil {
+		// a nil slice would be written as null, which NodeList refuses to read back
+		args = []Node{}
+	}
 	props := JSONNode{}.
 		Type("func").
+		Set("func", n.Func).
 		SetFunctionType("functionType", n.Type).
-		Set("args", n.Args)
+		Set("args", args)
 	return json.Marshal(&props)
 }
 
@@ -1491,6 +1497,13 @@ func (n *FunctionNode) unmarshal(props JSONNode) error {
 
 	if n.Type, err = props.FunctionType("functionType"); err != nil {
 		return err
+	}
+
+	// Documents written before the name was included do not have the field.
+	if props.Has("func") {
+		if n.Func, err = props.String("func"); err != nil {
+			return err
+		}
 	}
 
 	return nil
